@@ -167,6 +167,43 @@ message OneofAPCap {
 """
 
 
+def schema_nested():
+    """nested declarations: messages with the same short name under different parents (different field lists), nested enums,
+    references across nesting levels, an always-present nested type."""
+    return header("nested") + """
+message Request {
+  message Meta { string name = 1; int64 id = 2; }
+  Meta meta = 1;
+  repeated Meta metas = 2;
+  message Inner {
+    message Meta { bool deep = 3; fixed32 tag = 1; }
+    Meta m = 1;
+    enum Kind { NONE = 0; SOME = 5; }
+    Kind kind = 2;
+  }
+  Inner inner = 3;
+}
+message Response {
+  message Meta { int64 id = 1; string name = 2; repeated sint32 extra = 3; }
+  Meta meta = 1;
+  Request.Meta req_meta = 2;
+  enum Code { OK = 0; BAD = 2; }
+  Code code = 3;
+  oneof r {
+    Meta alt = 4;
+    Request.Inner.Meta deep = 5;
+    Request.Inner.Kind kind = 6;
+  }
+  message Flat {
+    option (pico.message).always_present = true;
+    sint64 v = 1;
+  }
+  Flat flat = 7;
+  repeated Flat flats = 8;
+}
+"""
+
+
 def schema_bigenum():
     """enum size boundaries (top-level with 20 values, nested with 17, negative and sparse numbers)."""
     s = header("bigenum", pico=False) + "enum Code {\n"
@@ -276,7 +313,7 @@ BOUNDARY = {
 
 def fixed_schemas():
     return {"allmaps": schema_allmaps(), "recur": schema_recur(), "presence": schema_presence(), "order": schema_order(), "casts": schema_casts(),
-            "capone": schema_capone(), "oneofap": schema_oneofap(), "bigenum": schema_bigenum(), "wkimp": schema_wkimp()}
+            "capone": schema_capone(), "oneofap": schema_oneofap(), "nested": schema_nested(), "bigenum": schema_bigenum(), "wkimp": schema_wkimp()}
 
 
 def build(schemas, tag="fresh"):
